@@ -48,7 +48,7 @@ Definition st_eqb (a b : st) : bool :=
   Nat.eqb (nnew a) (nnew b) && Nat.eqb (cur a) (cur b) && opt_eqb resp_eqb (rsp a) (rsp b) &&
   Bool.eqb (route_matched a) (route_matched b) && Nat.eqb (rcursor a) (rcursor b) && Nat.eqb (scursor a) (scursor b) &&
   list_eqb Nat.eqb (fcalls a) (fcalls b) && list_eqb Nat.eqb (scalls a) (scalls b) && list_eqb phase_eqb (delayed a) (delayed b) &&
-  Z.eqb (rc a) (rc b) && Bool.eqb (global_ever a) (global_ever b) && Bool.eqb (x_loop a) (x_loop b) &&
+  Nat.eqb (nfin a) (nfin b) && Z.eqb (rc a) (rc b) && Bool.eqb (global_ever a) (global_ever b) && Bool.eqb (x_loop a) (x_loop b) &&
   Bool.eqb (x_upf a) (x_upf b) && Bool.eqb (x_nog a) (x_nog b).
 
 Ltac split_andb H :=
@@ -82,6 +82,7 @@ Definition gs_eqb (a b : gs) : bool :=
   Bool.eqb (g_new_after_start a) (g_new_after_start b) && Bool.eqb (g_denied a) (g_denied b) &&
   Bool.eqb (g_new_after_deny a) (g_new_after_deny b) && Bool.eqb (g_term a) (g_term b) && Z.eqb (g_gauge a) (g_gauge b) &&
   Z.eqb (g_res a) (g_res b) && Z.eqb (g_res_min a) (g_res_min b) && Bool.eqb (g_panic a) (g_panic b) &&
+  Bool.eqb (g_leak a) (g_leak b) && Bool.eqb (g_fin_bad a) (g_fin_bad b) &&
   opt_eqb rk_eqb (g_reply_kind a) (g_reply_kind b).
 Lemma gs_eqb_eq a b : gs_eqb a b = true -> a = b.
 Proof.
